@@ -215,4 +215,61 @@ def aiterSync {S : Type} (next : S → S × CallOut) : Nat → S → List Val ×
     | (_, .raised e) => ([], some e)
     | (_, .pending _) => ([], some (.runtime rtSyncError))
 
+/-! ### asyncgen hooks (`sys.set_asyncgen_hooks(firstiter, finalizer)`)
+
+CPython (genobject.c `async_gen_init_hooks`, `_PyGen_Finalize`): the first `__anext__/asend/athrow/aclose`
+call on an async generator runs `firstiter(agen)` once and captures the finalizer installed at that
+moment; garbage collection of a generator whose frame has not run to its end (and which is not
+`ag_closed`) hands it to the captured finalizer instead of closing it — MODELLED, NOT VERIFIED.
+GeneratorObjectIterator (monitor.py `_first_iter`, `__del__`, as repaired by
+fixes/C06-asyncgen-hooks.patch): the first activation of `asend/_athrow` on a still unstarted coroutine
+runs `_first_iter` once; `__del__` hands an unfinished iterator to the captured finalizer. -/
+
+/-- which hooks are installed -/
+structure HookCfg where
+  firstiter : Bool
+  finalizer : Bool
+deriving Repr, DecidableEq
+
+inductive HookEv where
+  | firstiter
+  | finalizer
+deriving Repr, DecidableEq
+
+/-- per-generator hook state: `ag_hooks_inited` / `hooks_inited`, and whether a finalizer was captured -/
+structure HookSt where
+  inited : Bool := false
+  fin : Bool := false
+deriving Repr, DecidableEq
+
+def hookInit (h : HookCfg) (st : HookSt) : HookSt × List HookEv :=
+  if st.inited then (st, [])
+  else (⟨true, h.finalizer⟩, if h.firstiter then [.firstiter] else [])
+
+/-- native: every consumer method call starts with `async_gen_init_hooks` -/
+def nativeHookCall {σ : Type} (h : HookCfg) (st : HookSt) (_a : AG σ) : HookSt × List HookEv :=
+  hookInit h st
+
+/-- native: `_PyGen_Finalize` -/
+def nativeHookGC {σ : Type} (st : HookSt) (a : AG σ) : List HookEv :=
+  if st.fin && !SCoro.isDone a.frame && !a.closed then [.finalizer] else []
+
+def isCreated {σ : Type} : CSt σ → Bool
+  | .created _ => true
+  | _ => false
+
+/-- GeneratorObjectIterator: `asend`/`_athrow` reach `elif coro_is_new(self.coro): self._first_iter()` only
+    when not running and not finished (lines 347-352, 404-412) -/
+def goiHookCall {ub : UB} (h : HookCfg) (st : HookSt) (g : Goi ub) : HookSt × List HookEv :=
+  if g.running || SCoro.isDone g.coro || !isCreated g.coro then (st, []) else hookInit h st
+
+/-- GeneratorObjectIterator.__del__ -/
+def goiHookGC {ub : UB} (st : HookSt) (g : Goi ub) : List HookEv :=
+  if st.fin && !SCoro.isDone g.coro then [.finalizer] else []
+
+/-- `__del__` BEFORE fixes/C06-asyncgen-hooks.patch: every iterator with a captured finalizer, finished
+    or not (kept to document the finding `goi-vs-native:hooks`) -/
+def goiHookGCOld (st : HookSt) : List HookEv :=
+  if st.fin then [.finalizer] else []
+
 end Asynkit.AsyncGen
